@@ -261,6 +261,15 @@ static void run_case(Tape &t, Ctx &cx)
         uint8_t *blk = (uint8_t *)malloc(n ? n : 1);
         memcpy(blk, msg.data(), n);
         uint64_t got = run_crc(w, lsb, T, blk, n, init);
+        {
+            // the table and the message are const inputs of the update: the same call on read-only copies gives the same value
+            RoBlock rt(&T, sizeof(T), 8), rm(msg.data(), n, 1);
+            if (rt.p && rm.p)
+            {
+                uint64_t gro = run_crc(w, lsb, *(Table const *)rt.p, rm.p, n, init);
+                if (gro != got) { free(blk); cx.fail("crc:readonly_input_differs", "crc%d%c on read-only copies of table and message = %#llx, on writable ones %#llx", w, lsb ? 'l' : 'm', (unsigned long long)gro, (unsigned long long)got); }
+            }
+        }
         uint64_t want = lsb ? ref_lsb(w, poly, blk, n, init) : ref_msb(w, poly, blk, n, init);
         if (got != want)
         {
@@ -322,6 +331,14 @@ static void run_case(Tape &t, Ctx &cx)
         memcpy(blk, msg.data(), n);
         uint32_t got = sdbm ? a_hash_sdbm_(blk, n, init) : a_hash_bkdr_(blk, n, init);
         free(blk);
+        {
+            RoBlock rm(msg.data(), n, 1);
+            if (rm.p)
+            {
+                uint32_t gro = sdbm ? a_hash_sdbm_(rm.p, n, init) : a_hash_bkdr_(rm.p, n, init);
+                VP_CHECK(cx, gro == got, "hash:readonly_input_differs", "length form on a read-only copy = %#x, on a writable one %#x", gro, got);
+            }
+        }
         VP_CHECK(cx, got == want, sdbm ? "hash:sdbm_value" : "hash:bkdr_value", "length form on %zu bytes = %#x, definition gives %#x", n, got, want);
         // composition over concatenation
         size_t a = n ? t.u16() % (n + 1) : 0;
